@@ -151,6 +151,11 @@ def run_case(case):
     # fresh flow per run
     reuse = rng.random() < 0.25
     cfg['same_flow_object'] = reuse
+    nested = boot.rng(case['seed'], 'C07', 'nested', case['idx']).choice(
+        [None, None, None, 'checkpoint_alone', 'segment_and_checkpoint'])
+    cfg['checkpoint_in_nested_flow'] = nested
+    if nested:
+        cov['history']['checkpoint_in_nested_flow/' + nested] = 1
     early_stop = boot.rng(case['seed'], 'C07', 'early', case['idx']).random() < 0.2
     cfg['early_stopping_step_after_last_checkpoint'] = early_stop
     if early_stop:
@@ -208,9 +213,15 @@ def run_case(case):
                 yield from package
             return f
         for k in range(ncp):
-            steps.append(seg(k))
-            steps.append(pseg(k))
-            steps.append(d.checkpoint('cp%d' % k, checkpoint_path=cpdir))
+            if nested == 'checkpoint_alone':
+                # the checkpoint sits in a nested Flow of its own: grouping must not change what it stands for
+                steps += [seg(k), pseg(k), d.Flow(d.checkpoint('cp%d' % k, checkpoint_path=cpdir))]
+            elif nested == 'segment_and_checkpoint':
+                steps.append(d.Flow(seg(k), pseg(k), d.checkpoint('cp%d' % k, checkpoint_path=cpdir)))
+            else:
+                steps.append(seg(k))
+                steps.append(pseg(k))
+                steps.append(d.checkpoint('cp%d' % k, checkpoint_path=cpdir))
         steps.append(seg(ncp))
         steps.append(pseg(ncp))
         if early_stop:
